@@ -53,19 +53,38 @@ def check(ctx: Ctx) -> None:
     reg = message_registry(repo)
 
     with ctx.obligation("C02.a", "single-reader") as ob:
+        from ..known_funcs import KNOWN_FUNCS
+        from ..util import xtext
         readers = []
         for fi in repo.scan_funcs():
             for c in repo.calls_in(fi):
                 if unparse(c.func) == "Message.from_io":
-                    readers.append((fi, c))
-        for fi, c in readers:
-            ob.site(fi, c, "Message.from_io reader", stream=unparse(c.args[0]))
+                    readers.append((fi, c, xtext(repo, fi, c.args[0])))
+        # a reader inside a new (non-inlinable, e.g. generator) helper counts for each of its callers
+        lifted = []
+        for fi, c, stream in readers:
+            if fi.qualname in KNOWN_FUNCS:
+                lifted.append((fi, c, stream))
+                continue
+            sites = repo.callsites_flat(fi.qualname)
+            params = fi.params()
+            if not sites:
+                lifted.append((fi, c, stream))
+            for caller, call in sites:
+                s2 = stream
+                if stream in params and params.index(stream) < len(call.args):
+                    s2 = xtext(repo, caller, call.args[params.index(stream)])
+                lifted.append((caller, call, s2))
+        readers = lifted
+        for fi, c, stream in readers:
+            ob.site(fi, c, "Message.from_io reader", stream=stream)
+            c = ast.copy_location(ast.Call(func=c.func, args=[ast.parse(stream, mode="eval").body], keywords=[]), c)
             if fi.short == "BaseGateway._thread_receiver":
                 al = repo.local_alias(unparse(c.args[0]), fi)
                 if unparse(c.args[0]) != "self._io" and not (al is not None and unparse(al) == "self._io"):
                     ob.violation(fi, c, "the receiver thread decodes frames from something else than the gateway's io")
             elif fi.short == "serve_proxy_io":
-                if unparse(c.args[0]) != "sub_io":
+                if unparse(c.args[0]) != "sub_io" and not unparse(c.args[0]).startswith("create_io("):
                     ob.violation(fi, c, "the forwarder reads frames from something else than its own sub process")
             else:
                 ob.violation(fi, c, "a second reader decodes frames from a connection: frames would be split between readers")
@@ -270,11 +289,11 @@ def check(ctx: Ctx) -> None:
         puts = [c for c in repo.calls_in(flr) if callee_attr(c) == "put"]
         cbs = [c for c in repo.calls_in(flr) if isinstance(c.func, ast.Name) and c.func.id == cbn]
         ob.require(len(puts) == 1 and len(cbs) == 1, "queue.put / callback(data) not found exactly once")
+        from ..util import expand
         for c in puts + cbs:
             a = c.args[0]
-            src = repo.local_alias(unparse(a), flr) if isinstance(a, ast.Name) else a
-            defs = [n.value for n in repo.own_nodes(flr) if isinstance(n, ast.Assign) and unparse(n.targets[0]) == unparse(a)]
-            ok = any(isinstance(d, ast.Call) and callee_attr(d) == "loads_internal" and unparse(d.args[0]) == "data" for d in defs)
+            defs = [n.value for n in repo.own_nodes(flr) if isinstance(n, ast.Assign) and unparse(n.targets[0]) == unparse(a)] + [expand(repo, flr, a)]
+            ok = any(isinstance(d, ast.Call) and callee_attr(d) == "loads_internal" and unparse(d.args[0]) == flr.params()[2] for d in defs)
             ob.site(flr, c, "delivered value = loads_internal(received payload)", ok=ok)
             if not ok:
                 ob.violation(flr, c, "the delivered object is not the decoded payload of this frame")
